@@ -301,6 +301,27 @@ where
                 if ct.w.len() as i64 != geti(&v["expect"], "len") {
                     return Outcome::fail(json!({"len": ct.w.len()}), "payload length differs from max(32, Leb128Len(n)+n)");
                 }
+                // identifiers that coincide with other things the library handles: the recipient's own key bytes followed
+                // by the identifier, and the scheme's tag.  Opens with the signature over exactly that identifier only.
+                if k != 0 && n <= 129 {
+                    let scheme = scheme_of(gets(v, "scheme"));
+                    let skk = lib.sk::<C>(k);
+                    for id2 in [[&enc_k::<C>(&pk.0)[..], &id[..]].concat(), crate::signcrypt::dst_of::<C>(scheme).to_vec()] {
+                        if let (Ok(c2), Ok(s_right), Ok(s_other)) = (pk.encrypt_time_lock(scheme, &msg, &id2), skk.sign(scheme, &id2), skk.sign(scheme, &id)) {
+                            let a: Option<Vec<u8>> = c2.decrypt(&s_right).into();
+                            let b2: Option<Vec<u8>> = c2.decrypt(&s_other).into();
+                            if a.as_deref() != Some(&msg[..]) || (id2 != id && b2.is_some()) {
+                                return Outcome::fail(json!({"id": hex::encode(&id2)}), "an identifier that begins with the recipient's key bytes (or equals the tag): opens with the signature over that identifier only - not as the property says");
+                            }
+                            let rexp = ref_open::<R>(&rf, &enc_k::<C>(&c2.u), &c2.v, &c2.w, &enc_s::<C>(s_right.as_raw_value()), true);
+                            if rexp.as_deref() != Some(&msg[..]) {
+                                return Outcome::fail(json!({"id": hex::encode(&id2)}), "the independent implementation does not open a ciphertext sealed to an identifier that begins with the key bytes");
+                            }
+                        } else {
+                            return Outcome::fail(json!({}), "sealing / signing for an identifier that begins with the key bytes refused");
+                        }
+                    }
+                }
                 if n == 65536 && k != 0 {
                     let scheme = scheme_of(gets(v, "scheme"));
                     if let Ok(sig) = lib.sk::<C>(k).sign(scheme, &id) {
